@@ -91,6 +91,11 @@ def run_table_case(ctx, case) -> None:
         ctx.count("not_accepted_by_library")
         return
     ctx.count("games_normalized")
+    cp = g.copy()
+    normalize_game(cp)
+    if [float(x) for x in g.get_values()] != [float(x) for x in values]:
+        ctx.violation("normalising-a-copy-changed-the-original", f"value table: normalize_game(copy) changed the original (n={n})", case)
+        return
     try:
         with np.errstate(divide="raise", invalid="raise", over="raise"):
             info = normalize_game(g)
@@ -127,6 +132,19 @@ def run_graph_case(ctx, case) -> None:
     ctx.count("graph_games")
     tab = IncompleteCooperativeGame(n)
     tab.set_values(np.array(values, dtype=np.float64))
+    # the env's pattern: the hidden game stays as it is, a COPY is normalised
+    try:
+        cp = gg.copy()
+        normalize_game(cp)
+        ctx.count("copies_normalised")
+        after = [float(x) for x in gg.get_values()]
+        if after != values:
+            ctx.violation("normalising-a-copy-changed-the-original", f"graph game: values {values[:8]} became {after[:8]} after "
+                          f"normalize_game(copy) (n={n})", dict(case, family=case.get("family", "graph")))
+            return
+    except Exception as exc:
+        ctx.violation("normalize-raised", f"{type(exc).__name__}: {exc} (graph game copy, n={n})", case)
+        return
     try:
         with np.errstate(divide="raise", invalid="raise", over="raise"):
             info_g = normalize_game(gg)
@@ -157,6 +175,9 @@ def run_graph_case(ctx, case) -> None:
 
 def additive_float(rng, n, style):
     w = [rng.uniform(-3, 7) if style != "pos" else rng.random() for _ in range(n)]
+    if style == "cancelling" and n >= 2:
+        w = [rng.choice([0.1, 0.2, 0.3, 0.7, 1.1, rng.random()]) * rng.choice([1, -1]) for _ in range(n - 1)]
+        w.append(-sum(w))                     # stand-alone values of mixed sign that cancel: sum ~ 0, sum of |.| is not
     size = 1 << n
     v = [0.0] * size
     if style == "np_order":           # the library's own accumulation order (player by player)
@@ -221,7 +242,7 @@ def run(ctx) -> None:
                     pass
                 ctx.count("poison_calls")
         elif r in (3, 4):
-            style = rng.choice(["forward", "reverse", "shuffled", "np_order", "pos"])
+            style = rng.choice(["forward", "reverse", "shuffled", "np_order", "pos", "cancelling", "cancelling"])
             run_table_case(ctx, {"family": f"additive_{style}", "values": additive_float(rng, n, style)})
         elif r == 5:
             k = rng.randint(1, 40)
